@@ -192,7 +192,40 @@ pub struct SimDevice {
     pub queue: QueueImpl,
     /// result of the next self test (0 = pass)
     pub tst_code: i16,
+    /// plain IEEE 488.2 device: stb() is the trait's default implementation
+    pub plain_stb: bool,
     pub sim: SimState,
+}
+
+/// View of the device that does not override `IEEE4882::stb` (what a device without the SCPI
+/// status structures gets).
+struct Plain488<'a>(&'a SimDevice);
+
+impl<'a> IEEE4882 for Plain488<'a> {
+    fn sre(&self) -> u8 {
+        self.0.sre
+    }
+    fn set_sre(&mut self, _value: u8) {}
+    fn esr(&self) -> u8 {
+        self.0.esr
+    }
+    fn set_esr(&mut self, _value: u8) {}
+    fn ese(&self) -> u8 {
+        self.0.ese
+    }
+    fn set_ese(&mut self, _value: u8) {}
+    fn tst(&mut self) -> Result<()> {
+        Ok(())
+    }
+    fn rst(&mut self) -> Result<()> {
+        Ok(())
+    }
+    fn cls(&mut self) -> Result<()> {
+        Ok(())
+    }
+    fn opc(&mut self) -> Result<()> {
+        Ok(())
+    }
 }
 
 impl SimDevice {
@@ -205,6 +238,7 @@ impl SimDevice {
             ques: EventRegister::default(),
             queue: QueueImpl::new(q)?,
             tst_code: 0,
+            plain_stb: false,
             sim: SimState::default(),
         })
     }
@@ -218,6 +252,7 @@ impl SimDevice {
             ques: self.ques,
             queue: self.queue.clone(),
             tst_code: self.tst_code,
+            plain_stb: self.plain_stb,
             sim: SimState::default(),
         }
     }
@@ -239,7 +274,11 @@ impl Device for SimDevice {
 
 impl IEEE4882 for SimDevice {
     fn stb(&self) -> u8 {
-        self.scpi_stb()
+        if self.plain_stb {
+            Plain488(self).stb()
+        } else {
+            self.scpi_stb()
+        }
     }
     fn sre(&self) -> u8 {
         self.sre
@@ -334,6 +373,15 @@ pub enum SimEnum {
 
 pub struct SimHandler {
     pub id: usize,
+}
+
+/// hardware event through the public EventRegister API
+pub fn apply_hw(reg: &mut EventRegister, op: &HwOp) {
+    match op.op {
+        HwKind::Set => reg.set_condition(op.value),
+        HwKind::SetBits => reg.set_condition_bits(op.value),
+        HwKind::ClearBits => reg.clear_condition_bits(op.value),
+    }
 }
 
 const ITER_CAP: usize = 100_000;
@@ -532,6 +580,20 @@ fn write_datum(resp: &mut ResponseUnit, d: &Datum) {
         Datum::Utf8(s) => {
             resp.data(s.as_str());
         }
+        Datum::Err(spec) => {
+            resp.data(build_err(spec));
+        }
+        Datum::ArrList(v) => {
+            let mut a: ArrayVec<i32, 8> = ArrayVec::new();
+            for x in v.iter().take(8) {
+                a.push(*x);
+            }
+            resp.data(a);
+        }
+        Datum::VecList(v) => {
+            let l: Vec<u16> = alloc::harness(|| v.clone());
+            resp.data(l);
+        }
     }
 }
 
@@ -555,6 +617,15 @@ pub fn datum_text(d: &Datum) -> core::result::Result<Vec<u8>, ErrObs> {
         Datum::Oct(x) => Octal(*x).format_response_data(&mut v),
         Datum::Bin(x) => Binary(*x).format_response_data(&mut v),
         Datum::Utf8(s) => s.as_str().format_response_data(&mut v),
+        Datum::Err(spec) => build_err(spec).format_response_data(&mut v),
+        Datum::ArrList(l) => {
+            let mut a: ArrayVec<i32, 8> = ArrayVec::new();
+            for x in l.iter().take(8) {
+                a.push(*x);
+            }
+            a.format_response_data(&mut v)
+        }
+        Datum::VecList(l) => l.format_response_data(&mut v),
     };
     match r {
         Ok(()) => Ok(v),
@@ -610,9 +681,9 @@ impl SimHandler {
         }
 
         if let Some(hw) = &plan.hw {
-            let v = hw.value;
+            let hw = *hw;
             let reg = dev.reg(hw.reg);
-            alloc::library(was, || reg.set_condition(v));
+            alloc::library(was, || apply_hw(reg, &hw));
         }
 
         fail_if!(Phase::Before);
